@@ -57,70 +57,73 @@ def run(ck, F):
         except Unsupported as e:
             raise AnalysisBroken(f'{f["id"]}: outside the evaluator language: {e}')
         runs1 = [r for r in runs1 if r[1] == 'return']
-        if len(runs1) != 1:
-            raise AnalysisBroken(f'{f["id"]}: {len(runs1)} paths on an empty scope (expected 1)')
-        st1, _k, v1 = runs1[0]
-        first = v1[1] if v1[0] == 'addr' else v1
-        type_key = ('param', 1)
-        # what is the declared type of request P?  Scope::make_alias keys on the initializer's type
-        finds1 = [e for e in st1.effects if e[0] == 'chain_find']
-        ins1 = [e for e in st1.effects if e[0] == 'tree_insert']
-        ok_keys = (len(ins1) == 1 and ins1[0][2] == ('param', 0) and contracts.render(ins1[0][1], st1, {}) == OVL
-                   and len(finds1) == 1)
-        if ok_keys:
-            k = finds1[0][2]
-            if f['name'] == 'make_alias':
-                ok_keys = (k[0] in ('vcall', 'call') and 'type() const' in k[1] and k[2] == ('param', 1))
-            else:
-                ok_keys = (k == ('param', 1))
-        ck.check(R_keys, inst, ok_keys, f'{inst}: overload lookup key / entry lookup key are not (name, declared type): '
-                 f'{[contracts.render(e[2], st1, {}) for e in ins1 + finds1]}', loc=f['loc'], fn=f['id'])
-        self_check_path(ck, F, S, f, inst + '/first', st1, first, None, 'new-name', R_once, R_decl, R_master, 0)
-        # which decl_factory member is used
-        farms = sorted({contracts.render(e[2], st1, {}) for e in st1.effects if e[0] == 'emplace'})
-        # its own factory: the Scope member of type decl_factory<T> for the class T it returns (the two template
-        # factories share a type: each must keep to one member, and not the same one)
-        T = f.get('ret', '').replace('*', '').replace('&', '').replace('const ', '').strip()
-        cands = [fl['name'] for fl in F.rec['ipr::impl::Scope']['fields'] if fl['t'] == f'ipr::impl::decl_factory<{T}>']
-        used = sorted({x.split('.')[1] for x in farms if x.startswith('$this.') and x.count('.') >= 2})
-        good = len(farms) == 2 and len(used) == 1 and used[0] in cands and farms == [f'$this.{used[0]}.decls', f'$this.{used[0]}.master_info']
-        if good and len(cands) > 1:
-            other = factory_used.setdefault(T, {})
-            other[f['name']] = used[0]
-            good = len(set(other.values())) == len(other)
-        ck.check(R_factory, inst, good,
-                 f'{inst} allocates from {farms}, expected the two stores of its own decl_factory<{contracts.short(T)}> member ({cands})', loc=f['loc'], fn=f['id'])
-        # second request from the state left by the first
-        base_eff = len(st1.effects)
-        base_c = len(st1.conds)
-        try:
-            runs2 = S.run(f['id'], args=keyrule.qparams(2), state=st1.fork())
-        except Unsupported as e:
-            raise AnalysisBroken(f'{f["id"]} (second request): outside the evaluator language: {e}')
-        kinds = set()
-        for st2, k2, v2 in runs2:
-            if k2 != 'return':
-                ck.fail(R_decl, inst + '/second', f'{inst} may throw {v2} on a populated scope', loc=f['loc'], fn=f['id'])
-                continue
-            conds = st2.conds[base_c:]
-            found = [c for c, val in conds if isinstance(c, tuple) and c[0] == 'found']
-            f_ovl = any(c[0] == 'found' and val and contracts.render(c[1], st2, {}) == OVL for c, val in conds)
-            f_ent = any(c[0] == 'found' and val and contracts.render(c[1], st2, {}) != OVL for c, val in conds)
-            root = v2[1] if v2[0] == 'addr' else v2
-            if f_ovl and f_ent:
-                kind = 'redeclaration'
-            elif f_ovl:
-                kind = 'new-type'
-            else:
-                kind = 'new-name'
-            kinds.add(kind)
-            if kind == 'redeclaration':
-                check_redecl(ck, F, S, f, inst, st1, st2, first, root, base_eff, R_once, R_redecl, R_master)
-            else:
-                self_check_path(ck, F, S, f, inst + '/' + kind, st2, root, first, kind, R_once, R_decl, R_master, base_eff)
-        if kinds != {'redeclaration', 'new-type', 'new-name'}:
-            ck.fail(R_redecl, inst, f'{inst}: second request explores {sorted(kinds)} instead of the three histories '
-                    '(redeclaration / new type / new name)', loc=f['loc'], fn=f['id'])
+        if not runs1:
+            raise AnalysisBroken(f'{f["id"]}: no returning path on an empty scope')
+        inst0 = inst
+        for pi1, (st1, _k, v1) in enumerate(runs1):
+            # every way the request can go on an empty scope is a first declaration and is judged as one
+            inst = inst0 if len(runs1) == 1 else f'{inst0} [first path {pi1}: {contracts.render_conds(st1.conds, st1, {})[:60]}]'
+            first = v1[1] if v1[0] == 'addr' else v1
+            type_key = ('param', 1)
+            # what is the declared type of request P?  Scope::make_alias keys on the initializer's type
+            finds1 = [e for e in st1.effects if e[0] == 'chain_find']
+            ins1 = [e for e in st1.effects if e[0] == 'tree_insert']
+            ok_keys = (len(ins1) == 1 and ins1[0][2] == ('param', 0) and contracts.render(ins1[0][1], st1, {}) == OVL
+                       and len(finds1) == 1)
+            if ok_keys:
+                k = finds1[0][2]
+                if f['name'] == 'make_alias':
+                    ok_keys = (k[0] in ('vcall', 'call') and 'type() const' in k[1] and k[2] == ('param', 1))
+                else:
+                    ok_keys = (k == ('param', 1))
+            ck.check(R_keys, inst, ok_keys, f'{inst}: overload lookup key / entry lookup key are not (name, declared type): '
+                     f'{[contracts.render(e[2], st1, {}) for e in ins1 + finds1]}', loc=f['loc'], fn=f['id'])
+            self_check_path(ck, F, S, f, inst + '/first', st1, first, None, 'new-name', R_once, R_decl, R_master, 0)
+            # which decl_factory member is used
+            farms = sorted({contracts.render(e[2], st1, {}) for e in st1.effects if e[0] == 'emplace'})
+            # its own factory: the Scope member of type decl_factory<T> for the class T it returns (the two template
+            # factories share a type: each must keep to one member, and not the same one)
+            T = f.get('ret', '').replace('*', '').replace('&', '').replace('const ', '').strip()
+            cands = [fl['name'] for fl in F.rec['ipr::impl::Scope']['fields'] if fl['t'] == f'ipr::impl::decl_factory<{T}>']
+            used = sorted({x.split('.')[1] for x in farms if x.startswith('$this.') and x.count('.') >= 2})
+            good = len(farms) == 2 and len(used) == 1 and used[0] in cands and farms == [f'$this.{used[0]}.decls', f'$this.{used[0]}.master_info']
+            if good and len(cands) > 1:
+                other = factory_used.setdefault(T, {})
+                other[f['name']] = used[0]
+                good = len(set(other.values())) == len(other)
+            ck.check(R_factory, inst, good,
+                     f'{inst} allocates from {farms}, expected the two stores of its own decl_factory<{contracts.short(T)}> member ({cands})', loc=f['loc'], fn=f['id'])
+            # second request from the state left by the first
+            base_eff = len(st1.effects)
+            base_c = len(st1.conds)
+            try:
+                runs2 = S.run(f['id'], args=keyrule.qparams(2), state=st1.fork())
+            except Unsupported as e:
+                raise AnalysisBroken(f'{f["id"]} (second request): outside the evaluator language: {e}')
+            kinds = set()
+            for st2, k2, v2 in runs2:
+                if k2 != 'return':
+                    ck.fail(R_decl, inst + '/second', f'{inst} may throw {v2} on a populated scope', loc=f['loc'], fn=f['id'])
+                    continue
+                conds = st2.conds[base_c:]
+                found = [c for c, val in conds if isinstance(c, tuple) and c[0] == 'found']
+                f_ovl = any(c[0] == 'found' and val and contracts.render(c[1], st2, {}) == OVL for c, val in conds)
+                f_ent = any(c[0] == 'found' and val and contracts.render(c[1], st2, {}) != OVL for c, val in conds)
+                root = v2[1] if v2[0] == 'addr' else v2
+                if f_ovl and f_ent:
+                    kind = 'redeclaration'
+                elif f_ovl:
+                    kind = 'new-type'
+                else:
+                    kind = 'new-name'
+                kinds.add(kind)
+                if kind == 'redeclaration':
+                    check_redecl(ck, F, S, f, inst, st1, st2, first, root, base_eff, R_once, R_redecl, R_master)
+                else:
+                    self_check_path(ck, F, S, f, inst + '/' + kind, st2, root, first, kind, R_once, R_decl, R_master, base_eff)
+            if kinds != {'redeclaration', 'new-type', 'new-name'}:
+                ck.fail(R_redecl, inst, f'{inst}: second request explores {sorted(kinds)} instead of the three histories '
+                        '(redeclaration / new type / new name)', loc=f['loc'], fn=f['id'])
 
     # ------------------------------------------------------------ comparators (KEY)
     K = keyrule.KeyChecker(ck, F, 'C07')
